@@ -40,7 +40,10 @@ RULE = ("paths = every solution of Basic/Specialized tracers in Antarctic, Green
         "z = z_turn - s^2). Corner geometries come first: equal depths, |dz| < 1 m, vertical, identical end points, "
         "end point on a layer boundary, equal indices, grazing incidence, flat refracted rays. Signals on integer "
         "time grids (int64, int32, range) and interpolation steps 1.5 and 5 are ordinary inputs; steps <= 0 / NaN "
-        "must raise. EmptySignal / Signal / FunctionSignal / GaussianNoise inputs are checked for object identity (input and both "
+        "must raise. The applied time shift is compared with an independent quadrature of n ds / c (near-vertical specialized rays "
+        "through shallow ice are a standing class); emitted / received directions are compared with the first / last "
+        "segment of the path and the returned vectors must be perpendicular to that geometric arrival direction. "
+        "EmptySignal / Signal / FunctionSignal / GaussianNoise inputs are checked for object identity (input and both "
         "outputs distinct, no shared arrays, input unchanged, exactly one tof, outputs addable, shifting one output "
         "moves nothing else). USED path objects are re-aimed through their mutable attributes (to_point / from_point / theta0; propagate - "
         "re-aim - propagate - back - propagate) and compared with identical never-used paths and with the new received "
@@ -79,13 +82,18 @@ for _n in ("pyrex", "pyrex.signals", "pyrex.ray_tracing", "pyrex.custom.layered_
 FREQS = [0.0, -1e8, 1e6, 3e7, 1e8, 5e8, float(np.nextafter(1e9, 0)), 1e9, float(np.nextafter(1e9, 2e9)), 3e9]
 
 
+_MODS = []
+
+
 def mods():
-    import pyrex  # noqa: F401
-    import pyrex.ray_tracing as rt
-    import pyrex.ice_model as im
-    import pyrex.signals as ps
-    import pyrex.custom.layered_ice as li
-    return rt, im, ps, li
+    if not _MODS:
+        import pyrex  # noqa: F401
+        import pyrex.ray_tracing as rt
+        import pyrex.ice_model as im
+        import pyrex.signals as ps
+        import pyrex.custom.layered_ice as li
+        _MODS.append((rt, im, ps, li))
+    return _MODS[0]
 
 
 # --------------------------------------------------------------------------------------------
@@ -446,7 +454,14 @@ def corner_cases(rng):
          "to": [x0 + r1 * c, y0 + r1 * sn, -150.0]},
     ]
     same = {"kind": "uniform", "n": 1.5, "range": [-800.0, 0.0], "above": 1.5, "below": 1.5}
+    zs_, ze_ = rng.choice([(-500.0, -100.0), (-300.0, -50.0), (-120.0, -700.0), (-60.0, -15.0)])
     cs += [
+        # near-vertical rays of the specialized tracer (beta <= beta_tolerance), partly in shallow ice: exactly
+        # vertical and a fraction of a metre off axis; both the direct and the surface-reflected solution
+        {"tracer": "specialized", "ice": {"kind": rng.choice(["antarctic", "greenland"])}, "from": [x0, y0, zs_],
+         "to": [x0, y0, ze_]},
+        {"tracer": "specialized", "ice": {"kind": "antarctic"}, "from": [x0, y0, zs_],
+         "to": [x0 + 0.001 * abs(zs_ - ze_) * c, y0 + 0.001 * abs(zs_ - ze_) * sn, ze_]},
         # flat refracted rays of the basic and the specialized tracer (turning below the surface; K27 for basic)
         {"tracer": "basic", "ice": {"kind": "antarctic"}, "from": [x0, y0, -170.0],
          "to": [x0 + 430 * c, y0 + 430 * sn, -195.0]},
@@ -785,8 +800,10 @@ def deep_branch_excess(path, kind):
         return None
     zs = np.linspace(zlo, min(zhi, zu), 200)
     sn = np.abs(float(path.beta)) / np.asarray(path.ice.index(zs), dtype=float)
-    if np.max(sn) <= 0.99 or np.max(sn) >= 1:
+    if np.max(sn) <= 0.99:
         return None
+    if np.max(sn) >= 1:
+        return float("inf")       # the launch angle is at / beyond horizontal for the true index: sec(theta) diverges
     sec = 1 / np.sqrt(1 - sn ** 2)
     if path.direct and float(path.path_length) > 0:
         # the launch angle of the deep branch does not belong to the straight line the branch assumes:
@@ -820,10 +837,23 @@ def basic_turning_omitted(path, f, m=2000):
 
 
 def indep_exponent(path, kind, f, m=4000):
-    """integral of ds / L_att(z, f) along the path by a fine midpoint rule, from the geometry alone; None where the
-    integrand is singular (turning rays) or the path class is not covered"""
+    """integral of ds / L_att(z, f) along the path (independent quadrature, see indep_integral)"""
+    return indep_integral(path, kind, lambda ice, zs: 1.0 / np.asarray(ice.attenuation_length(zs, float(f)),
+                                                                        dtype=float), m)
+
+
+def indep_tof(path, kind, m=4000):
+    """time of flight = integral of n(z) ds / c along the path (independent quadrature, see indep_integral)"""
+    import scipy.constants
+    return indep_integral(path, kind, lambda ice, zs: np.asarray(ice.index(zs), dtype=float) / scipy.constants.c, m)
+
+
+def indep_integral(path, kind, wfun, m=4000):
+    """integral of w(z) ds along the path by a fine midpoint rule, from the geometry alone (straight segments;
+    Snell's law with the path's launch angle for the curved classes, the turning-point singularity removed by the
+    substitution z = z_turn - s^2); None where the path class / geometry is not covered"""
     if kind == "layered":
-        parts = [indep_exponent(p, sub_kind(p), f, m) for p in path.paths]
+        parts = [indep_integral(p, sub_kind(p), wfun, m) for p in path.paths]
         return None if any(q is None for q in parts) else float(sum(parts))
     ice = path.ice
     if kind == "uniform":
@@ -835,7 +865,7 @@ def indep_exponent(path, kind, f, m=4000):
                 continue
             u = (np.arange(m) + 0.5) / m
             zs = p1[2] + u * (p2[2] - p1[2])
-            tot += length * float(np.mean(1.0 / np.asarray(ice.attenuation_length(zs, float(f)), dtype=float)))
+            tot += length * float(np.mean(wfun(ice, zs)))
         return tot
     if kind in ("basic", "specialized") and not path.direct:
         # turning / surface-reflected ray: two legs up to min(z_turn, surface); at a turning depth cos(theta) -> 0
@@ -858,7 +888,7 @@ def indep_exponent(path, kind, f, m=4000):
             c2 = 1 - (beta / np.asarray(ice.index(zs), dtype=float)) ** 2
             if np.any(c2 <= 0):
                 return None
-            tot += float(np.sum(w / np.sqrt(c2) / np.asarray(ice.attenuation_length(zs, float(f)), dtype=float)))
+            tot += float(np.sum(w / np.sqrt(c2) * wfun(ice, zs)))
         return tot
     if kind in ("basic", "specialized") and path.direct:
         z0, z1 = float(path.z0), float(path.z1)
@@ -873,8 +903,7 @@ def indep_exponent(path, kind, f, m=4000):
             c2 = 1 - (beta / np.asarray(ice.index(zs), dtype=float)) ** 2
             if np.any(c2 <= 0):
                 return None
-            return float(np.sum((zhi - zlo) / m / np.sqrt(c2)
-                                / np.asarray(ice.attenuation_length(zs, float(f)), dtype=float)))
+            return float(np.sum((zhi - zlo) / m / np.sqrt(c2) * wfun(ice, zs)))
         sin_hi = abs(beta) / float(ice.index(zhi))
         if sin_hi < 0.99:
             return plain()
@@ -894,7 +923,7 @@ def indep_exponent(path, kind, f, m=4000):
             c2 = 1 - (beta / np.asarray(ice.index(zs), dtype=float)) ** 2
             if np.any(c2 <= 0):
                 return None
-            return float(np.sum(w / np.sqrt(c2) / np.asarray(ice.attenuation_length(zs, float(f)), dtype=float)))
+            return float(np.sum(w / np.sqrt(c2) * wfun(ice, zs)))
         a, b = leg(zlo), leg(zhi)
         return None if a is None or b is None else a - b
     return None
@@ -932,7 +961,12 @@ def check_path(run, case, idx, path, deep=False):
                  "attenuation factor outside (0,1]")
         elif np.any(att == 0.0) and not underflow_ok:
             j = int(np.argmax(att == 0.0))
-            fail("attenuation-range", [float(fgrid[j]), 0.0], "in (0,1]", "attenuation factor is zero")
+            if deep_branch_excess(path, kind) == float("inf"):
+                # K26 at its extreme: the deep-branch launch angle reaches |sin theta| >= 1 for the true index, the
+                # integrand 1/cos(theta) diverges and the factor is exactly 0 (exponent too large: excess only)
+                fail("attenuation-range", [float(fgrid[j]), 0.0], "in (0,1]", DEEP_TEXT, key=DEEP_KEY)
+            else:
+                fail("attenuation-range", [float(fgrid[j]), 0.0], "in (0,1]", "attenuation factor is zero")
         if np.any(att == 0.0) and underflow_ok:
             run.count("attenuation_underflow_to_zero")
         if not np.array_equal(att, attn):
@@ -975,7 +1009,9 @@ def check_path(run, case, idx, path, deep=False):
             else:
                 o = np.argsort(np.abs(fl), kind="stable")
                 sa = al[o]
-                if not (np.all(np.isfinite(al)) and np.all(al <= 1.0) and np.all(al >= 0.0)) or \
+                if np.any(al == 0.0) and deep_branch_excess(path, kind) == float("inf"):
+                    run.count("K26_zero_factor_long_array")
+                elif not (np.all(np.isfinite(al)) and np.all(al <= 1.0) and np.all(al >= 0.0)) or \
                         (np.any(al == 0.0) and not underflow_ok):
                     fail("attenuation-range", [ln], "in (0,1]", "attenuation of a long array leaves (0,1]",
                          extra={"n_freqs": ln})
@@ -1109,6 +1145,39 @@ def check_path(run, case, idx, path, deep=False):
         ctx = dict(kind=kind, fr=fr, k2=k2, fail=fail)
 
         ss, sp, us, up1 = verify_propagation(path, ctx, t0, dt, x, pol, interp, dict(extra, step="generic"))
+        # directions: the attributes must agree with the geometry of the path, and the returned vectors must be
+        # perpendicular to the direction the ray ACTUALLY arrives from
+        geo = geometric_directions(path, kind)
+        if geo is not None and ss is not None:
+            e_geo, r_geo, gtol = geo
+            ea, ra = np.asarray(path.emitted_direction, dtype=float), np.asarray(path.received_direction, dtype=float)
+            run.count("directions_checked_against_geometry")
+            if float(np.linalg.norm(ea - e_geo)) > gtol or float(np.linalg.norm(ra - r_geo)) > gtol:
+                fail("directions", [[float(v) for v in ea], [float(v) for v in ra]],
+                     [[float(v) for v in e_geo], [float(v) for v in r_geo]],
+                     "emitted_direction / received_direction differ from the first / last segment of the path",
+                     extra=extra)
+            elif abs(float(us @ r_geo)) > 10 * gtol + 1e-9 or abs(float(up1 @ r_geo)) > 10 * gtol + 1e-9:
+                fail("basis-geometry", [float(us @ r_geo), float(up1 @ r_geo)], [0, 0],
+                     "the returned polarisation vectors are not perpendicular to the direction the ray arrives from "
+                     "(last segment of the path)", extra=extra)
+        # delay: the shift propagate applies is the time of flight = integral of n ds / c (independent quadrature)
+        if ss is not None:
+            delay = float(np.mean(np.asarray(ss.times, dtype=float) - (t0 + dt * np.arange(n))))
+            skip = (deep_branch_excess(path, kind) is not None
+                    or (kind == "basic" and not path.direct and float(path.z_turn) < float(path.ice.valid_range[1])))
+            ref_t = None if skip else indep_tof(path, kind)
+            if skip:
+                run.count("delay_oracle_skipped_K26_K27_region")
+            elif ref_t is not None and ref_t > 0:
+                run.count("delay_checked_against_quadrature")
+                tolt = {"uniform": 1e-6, "layered": 1e-3, "basic": 5e-3}.get(kind, 1e-3 if path.direct else 3e-3) \
+                    if kind != "layered" else 3e-3
+                # (dt-sized grids: the mean shift equals tof up to the rounding of t + tof)
+                if abs(delay - ref_t) > tolt * ref_t + 1e-15:
+                    fail("delay", delay, ref_t,
+                         "the time shift applied by propagate differs from the integral of n ds / c along the ray",
+                         extra=extra)
         if ss is not None:
             times = t0 + dt * np.arange(n)
             kw = {} if interp is None else {"attenuation_interpolation": interp}
@@ -1193,10 +1262,11 @@ def check_path(run, case, idx, path, deep=False):
                                    dict(extra, step="function-signal:%s" % src), g, fresh=ff)
 
     # ---- histories on one path object, compared step by step with never-used objects and the recomputation
-    if which in ("all", "propagate", "history"):
+    if which in ("all", "propagate", "history") and not case.get("_light"):
         check_history(run, case, idx, kind, fr, k2, fail)
     # ---- a used path object re-aimed through its mutable attributes
-    if which in ("all", "propagate", "reaim") and kind in ("basic", "specialized", "uniform"):
+    if which in ("all", "propagate", "reaim") and kind in ("basic", "specialized", "uniform") \
+            and not case.get("_light"):
         check_reaim(run, case, idx, kind, fail)
 
 
@@ -1205,6 +1275,43 @@ def attenuation_small_calls(path, f, chunk=97):
     f = np.asarray(f, dtype=float)
     return np.concatenate([np.atleast_1d(np.asarray(path.attenuation(f[i:i + chunk].copy()), dtype=float))
                            for i in range(0, len(f), chunk)]) if len(f) else np.zeros(0)
+
+
+def geometric_directions(path, kind):
+    """(emitted, received, tolerance) taken from the GEOMETRY of the path - the first and the last segment of its
+    points - not from its own direction attributes; straight classes exactly, curved classes from the sampled
+    `coordinates` (one dz step: a few mrad); None where the geometry is degenerate"""
+    def unit(v):
+        nrm = float(np.linalg.norm(v))
+        return None if nrm == 0 or not math.isfinite(nrm) else np.asarray(v, dtype=float) / nrm
+    try:
+        if kind == "layered":
+            first, last = path.paths[0], path.paths[-1]
+            e = geometric_directions(first, sub_kind(first))
+            r = geometric_directions(last, sub_kind(last))
+            if e is None or r is None:
+                return None
+            return e[0], r[1], max(e[2], r[2])
+        if kind == "uniform":
+            pts = np.asarray(path._points, dtype=float)
+            e, r = unit(pts[1] - pts[0]), unit(pts[-1] - pts[-2])
+            return None if e is None or r is None else (e, r, 1e-9)
+        if not path.direct:
+            zt = min(float(path.z_turn), float(path.ice.valid_range[1]))
+            if min(abs(zt - float(path.z0)), abs(zt - float(path.z1))) < 5 * float(path.dz):
+                # `coordinates` samples in dz steps ("for plotting only"): a ray that turns within a few steps of an
+                # end point has no usable first / last segment
+                note_skip("coordinates_too_coarse_near_turning_point")
+                return None
+        xs, ys, zs = path.coordinates
+        pts = np.column_stack((np.asarray(xs, dtype=float), np.asarray(ys, dtype=float), np.asarray(zs, dtype=float)))
+        if len(pts) < 3:
+            return None
+        e, r = unit(pts[1] - pts[0]), unit(pts[-1] - pts[-2])
+        return None if e is None or r is None else (e, r, 3e-2)
+    except Exception:      # noqa: BLE001
+        note_skip("coordinates_not_available_" + kind)
+        return None
 
 
 def recompute_reference(path, kind, fr, times, x, pol):
@@ -1216,8 +1323,12 @@ def recompute_reference(path, kind, fr, times, x, pol):
         fa = np.minimum(fa, np.max(freqs))      # np.interp holds the last tabulated value at Nyquist
     av = attenuation_small_calls(path, fa)
     ed = np.asarray(path.emitted_direction, dtype=float)
+    straight = kind == "uniform" or (kind == "layered" and all(sub_kind(q) == "uniform" for q in path.paths))
+    geo = geometric_directions(path, kind) if straight else None
+    if geo is not None and geo[2] <= 1e-9:
+        ed = geo[0]          # straight classes: the s/p split is recomputed from the geometric launch direction
     c = np.cross(ed, [0, 0, 1.0])
-    u0 = c / np.linalg.norm(c) if np.linalg.norm(c) > 0 else np.array(
+    u0 = c / np.linalg.norm(c) if np.linalg.norm(c) > 1e-12 else np.array(
         [math.sin(float(path.phi)), -math.cos(float(path.phi)), 0.0])
     q0 = np.cross(u0, ed)
     q0 = q0 / np.linalg.norm(q0)
@@ -1769,8 +1880,9 @@ def check_history(run, case, idx, kind, fr, k2, fail):
         extra = {"history_step": k, "op": list(map(str, st)), "vseed": case.get("vseed", 12345)}
         if st[0] == "prop":
             _, n, dt, interp, sk = st
+            fp_ = fresh_path()
             verify_propagation(path, ctx, 0.0, dt, special_signal(sk, n, g), pol, interp, extra,
-                               fresh=fresh_path(), ref_path=fresh_path())
+                               fresh=fp_, ref_path=fp_)
         elif st[0] == "sibling" and sib != idx:
             _, n, dt, interp = st
             sfr = [complex(c) for c in used[sib].fresnel]
@@ -1861,13 +1973,14 @@ def _same_factors(a, b, tol=1e-11):
 
 
 def search(run, deep):
-    npaths = run.scale(30, 200) if not deep else 200
+    npaths = run.scale(40, 200) if not deep else 200
     done = 0
     guard = 0
     order = ["specialized", "basic", "uniform", "layered"]
     corners = corner_cases(run.rng)
-    while done < npaths and guard < 30 * npaths:
+    while (done < npaths or corners) and guard < 30 * npaths:
         guard += 1
+        corner = bool(corners)
         if corners:
             case = corners.pop(0)
             run.count("search_corner_cases")
@@ -1875,10 +1988,15 @@ def search(run, deep):
             case = gen_case(run.rng, tracer=order[guard % 4] if guard <= 8 else None)
         case["vseed"] = run.rng.getrandbits(31)
         paths, ice = make_paths(case)
-        for i, p in enumerate(paths):
+        sols = list(enumerate(paths))
+        if corner and not deep and len(sols) > 2:
+            sols = [sols[0], sols[-1]]          # quick tier: first and last solution of a corner geometry
+        for i, p in sols:
             run.case({"search": case, "sol": i}, sample={"tracer": case["tracer"], "from": case["from"],
                                                          "to": case["to"], "sol": i})
             run.count("search_" + case["tracer"])
+            # quick tier: the (costly) histories and re-aiming sequences run on every second path
+            case["_light"] = (not deep) and (done % 2 == 1)
             check_path(run, case, i, p, deep)
             done += 1
     flush_skips(run)
